@@ -91,6 +91,21 @@ def dumps(x, **kw):
 
 
 _CORPUS = {}
+_PAR_CLAUSE = None
+
+
+def _safe_run(cl, inp):
+    try:
+        return cl.run(inp)
+    except Timeout:
+        raise
+    except Exception as e:  # implementation raised: this is an observation
+        return {"exc": type(e).__name__, "msg": str(e)[:200]}
+
+
+def _par_worker(inp):
+    signal.alarm(0)
+    return _safe_run(_PAR_CLAUSE, inp)
 
 
 def corpus_inputs(cl):
@@ -119,15 +134,17 @@ def run_clause(cl, rng, n, driver, stats, replay_input=None):
         inputs = [replay_input]
     else:
         inputs = corpus_inputs(cl) + list(cl.gen(rng, n))
-    obs = []
-    for inp in inputs:
-        try:
-            o = cl.run(inp)
-        except Timeout:
-            raise
-        except Exception as e:  # implementation raised: this is an observation
-            o = {"exc": type(e).__name__, "msg": str(e)[:200]}
-        obs.append(o)
+    par = int(os.environ.get("VERIF_PAR", "1"))
+    if par > 1 and len(inputs) >= 1500 and replay_input is None:
+        # thorough tier: evaluate the implementation on the inputs in forked worker processes (each worker still
+        # runs many cases in one interpreter, so state leaking between cases stays observable)
+        import multiprocessing as mp
+        global _PAR_CLAUSE
+        _PAR_CLAUSE = cl
+        with mp.get_context("fork").Pool(par) as pool:
+            obs = pool.map(_par_worker, inputs, chunksize=max(1, len(inputs) // (par * 6)))
+    else:
+        obs = [_safe_run(cl, inp) for inp in inputs]
     lean_res = [[] for _ in inputs]
     if cl.lean is not None:
         ops, spans = [], []
@@ -174,6 +191,8 @@ def main(argv=None):
     seed = int(os.environ.get("VERIF_SEED", "0") or 0)
     t0 = time.time()
     limit = int(os.environ.get("VERIF_TIMEOUT", "900" if tier == "quick" else "7200"))
+    if tier == "thorough":
+        os.environ.setdefault("VERIF_PAR", "8")
     signal.signal(signal.SIGALRM, _alarm)
     signal.alarm(limit)
     try:
